@@ -9,6 +9,7 @@ import (
 	"fmt"
 	"io"
 	"io/fs"
+	"log"
 	"sort"
 	"strconv"
 	"strings"
@@ -425,24 +426,36 @@ func (f *File) Truncate(size int64) error {
 // package log: Fatal* must not end the simulation's process, Print* must go to
 // the simulated stderr (without a timestamp: the simulated clock does not run).
 
-// LogFatal mirrors log.Fatal.
-func LogFatal(v ...any) { fmt.Fprint(Stderr, v...); fmt.Fprintln(Stderr); Exit(1) }
-
-// LogFatalf mirrors log.Fatalf.
-func LogFatalf(format string, v ...any) {
-	fmt.Fprintf(Stderr, format, v...)
-	fmt.Fprintln(Stderr)
-	Exit(1)
+func logOut(str string) {
+	if !strings.HasSuffix(str, "\n") {
+		str += "\n"
+	}
+	Stderr.WriteString(str)
 }
 
+// LogFatal mirrors log.Fatal.
+func LogFatal(v ...any) { logOut(fmt.Sprint(v...)); Exit(1) }
+
+// LogFatalf mirrors log.Fatalf.
+func LogFatalf(format string, v ...any) { logOut(fmt.Sprintf(format, v...)); Exit(1) }
+
 // LogFatalln mirrors log.Fatalln.
-func LogFatalln(v ...any) { fmt.Fprintln(Stderr, v...); Exit(1) }
+func LogFatalln(v ...any) { logOut(fmt.Sprintln(v...)); Exit(1) }
 
 // LogPrint mirrors log.Print.
-func LogPrint(v ...any) { fmt.Fprint(Stderr, v...); fmt.Fprintln(Stderr) }
+func LogPrint(v ...any) { logOut(fmt.Sprint(v...)) }
 
 // LogPrintf mirrors log.Printf.
-func LogPrintf(format string, v ...any) { fmt.Fprintf(Stderr, format, v...); fmt.Fprintln(Stderr) }
+func LogPrintf(format string, v ...any) { logOut(fmt.Sprintf(format, v...)) }
 
 // LogPrintln mirrors log.Println.
-func LogPrintln(v ...any) { fmt.Fprintln(Stderr, v...) }
+func LogPrintln(v ...any) { logOut(fmt.Sprintln(v...)) }
+
+// LoggerFatal mirrors (*log.Logger).Fatal without ending the process.
+func LoggerFatal(l *log.Logger, v ...any) { l.Print(v...); Exit(1) }
+
+// LoggerFatalf mirrors (*log.Logger).Fatalf.
+func LoggerFatalf(l *log.Logger, format string, v ...any) { l.Printf(format, v...); Exit(1) }
+
+// LoggerFatalln mirrors (*log.Logger).Fatalln.
+func LoggerFatalln(l *log.Logger, v ...any) { l.Println(v...); Exit(1) }
